@@ -244,6 +244,7 @@ func (s *c01Summ) noWriteOnEdge(e an.CondEdge, call *ssa.Call) bool {
 }
 
 func runC01(c *an.Ctx) {
+	dnssvcWiring(c, "C01-R17", nil, 40)
 	// ---- C01-R17: builder wiring of the components this property rests on
 	c.Floor("C01-R17", 6)
 	builderWiring(c, "C01-R17", map[string][]string{
